@@ -40,6 +40,12 @@ impl Ast {
     #[verifier::external_body] fn node(&self, i: AstIndex) -> (r: &AstNode) ensures *r == self.at(i) { unimplemented!() }
 }
 
+// the compiler's error kinds: the one the functions under contract construct, and the rest
+#[verifier::external_body] struct ErrStr { _p: u8 }
+// `"comparison".into()` (a String), rule R5
+#[verifier::external_body] fn err_str(s: &str) -> ErrStr { unimplemented!() }
+enum ErrorKind { InvalidBinaryOp { kind: ErrStr, op: AstBinaryOp }, Other(u8) }
+
 // ---- the ghost emission trace: what has been appended to the code, in order
 ghost enum Ev {
     // one instruction at code position `at`; `span`: the node whose span is recorded for it in the
@@ -119,6 +125,39 @@ proof fn lemma_elif_stable(t0: Seq<Ev>, t1: Seq<Ev>, i: int, block: (AstIndex, A
 #[verifier::opaque] spec fn elif_jumps(t: Seq<Ev>, i: int, patched: Map<int, int>, end: int) -> bool {
     patched.contains_key(t[i + 2].pos()) && patched[t[i + 2].pos()] == t[i + 5].pos() + 2 && patched.contains_key(t[i + 5].pos()) && patched[t[i + 5].pos()] == end
 }
+// ---- chained comparisons
+spec fn is_cmp(op: AstBinaryOp) -> bool { op is Less || op is LessOrEqual || op is Greater || op is GreaterOrEqual || op is Equal || op is NotEqual }
+// the instruction for a comparison operator
+spec fn cmp_op_spec(op: AstBinaryOp) -> core::result::Result<Op, ErrorKind> {
+    match op {
+        AstBinaryOp::Less => Ok(Op::Less), AstBinaryOp::LessOrEqual => Ok(Op::LessOrEqual), AstBinaryOp::Greater => Ok(Op::Greater),
+        AstBinaryOp::GreaterOrEqual => Ok(Op::GreaterOrEqual), AstBinaryOp::Equal => Ok(Op::Equal), AstBinaryOp::NotEqual => Ok(Op::NotEqual),
+        _ => Err(arbitrary()),
+    }
+}
+spec fn bin_op(ast: &Ast, i: AstIndex) -> AstBinaryOp { match ast.at(i).node { Node::BinaryOp { op, .. } => op, _ => AstBinaryOp::Add } }
+spec fn bin_lhs(ast: &Ast, i: AstIndex) -> AstIndex { match ast.at(i).node { Node::BinaryOp { lhs, .. } => lhs, _ => i } }
+spec fn bin_rhs(ast: &Ast, i: AstIndex) -> AstIndex { match ast.at(i).node { Node::BinaryOp { rhs, .. } => rhs, _ => i } }
+// `a < b < c ..`: rs[0] is the rhs of the first comparison; as long as it is itself a comparison `x OP y`, x is the
+// next operand and y the next rhs: rs = [b < c .., c .., ..], the last one is the final operand
+spec fn cmp_chain(ast: &Ast, rhs0: AstIndex, rs: Seq<AstIndex>) -> bool {
+    &&& rs.len() >= 1 && rs[0] == rhs0
+    &&& forall|i: int| 0 <= i < rs.len() - 1 ==> ast.at(#[trigger] rs[i]).node is BinaryOp && is_cmp(bin_op(ast, rs[i])) && rs[i + 1] == bin_rhs(ast, rs[i])
+    &&& !(ast.at(rs.last()).node is BinaryOp && is_cmp(bin_op(ast, rs.last())))
+}
+// the operator of the i-th comparison of the chain
+spec fn cmp_chain_op(ast: &Ast, op0: AstBinaryOp, rs: Seq<AstIndex>, i: int) -> AstBinaryOp { if i <= 0 { op0 } else { bin_op(ast, rs[i - 1]) } }
+// the i-th link, at trace index p (the previous operand's node is at trace index `prev`): the next operand -> any register,
+// the comparison of the two into the comparison register c, JumpIfFalse on c, (hole)
+#[verifier::opaque] spec fn cmp_link(t: Seq<Ev>, p: int, prev: int, operand: AstIndex, op: AstBinaryOp, c: u8) -> bool {
+    t[p].is_node(operand, ResultRegister::Any) && (cmp_op_spec(op) matches Ok(o) && t[p + 1].is_op(o, seq![c, t[prev].reg(), t[p].reg()]))
+        && t[p + 2].is_op(Op::JumpIfFalse, seq![c]) && t[p + 3] is Hole
+}
+proof fn lemma_cmp_link_stable(t0: Seq<Ev>, t1: Seq<Ev>, p: int, prev: int, operand: AstIndex, op: AstBinaryOp, c: u8)
+    requires prefix(t0, t1), 0 <= prev < p, p + 4 <= t0.len(), cmp_link(t0, p, prev, operand, op, c),
+    ensures cmp_link(t1, p, prev, operand, op, c),
+{ reveal(cmp_link); }
+spec fn cmp_prev(n: int, i: int) -> int { if i <= 0 { n } else { n + 1 + 4 * (i - 1) } }
 spec fn sw_len(ast: &Ast, arm: AstIndex) -> int { if sw_cond(ast, arm) is Some { 6 } else { 1 } }
 proof fn lemma_sw_step(ast: &Ast, arms: Seq<AstIndex>, k: int)
     requires 0 <= k,
@@ -291,6 +330,24 @@ HELPERS = r"""
                 && (forall|h: int| #![trigger final(self).g@.patched.contains_key(h)] #![trigger old(self).g@.patched.contains_key(h)] h < old(self).g@.loops.last().start ==> final(self).g@.patched.contains_key(h) == old(self).g@.patched.contains_key(h))
                 && (forall|h: int| #![trigger final(self).g@.patched[h]] #![trigger old(self).g@.patched[h]] h < old(self).g@.loops.last().start && old(self).g@.patched.contains_key(h) ==> final(self).g@.patched[h] == old(self).g@.patched[h]),
     { unimplemented!() }
+
+    #[verifier::external_body]
+    fn make_error(&self, e: ErrorKind) -> Error { unimplemented!() }
+    // what compile_comparison_op emits for `lhs0 op0 rs[0]` where rs unrolls the chain (cmp_chain), c: the comparison register
+    spec fn cmp_post(pre: &Compiler, post: &Compiler, ast: &Ast, op0: AstBinaryOp, lhs0: AstIndex, rs: Seq<AstIndex>, c: u8, out: CompileNodeOutput) -> bool {
+        let t = post.g@.trace; let n = pre.g@.trace.len() as int; let links = rs.len() - 1; let q = n + 1 + 4 * links;
+        // C01: the operands are evaluated ONCE each, left to right ...
+        &&& t.len() >= q + 1 && t[n].is_node(lhs0, ResultRegister::Any)
+        // ... each comparison but the last goes into the comparison register, and a false one skips everything that follows
+        &&& (forall|i: int| 0 <= i < links ==> cmp_link(t, n + 1 + 4 * i, cmp_prev(n, i), bin_lhs(ast, #[trigger] rs[i]), cmp_chain_op(ast, op0, rs, i), c)
+                && post.g@.patched.contains_key(t[n + 1 + 4 * i + 3].pos()) && post.g@.patched[t[n + 1 + 4 * i + 3].pos()] == post.len())
+        // the last operand, and the last comparison into the result register (when a result is wanted)
+        &&& t[q].is_node(rs.last(), ResultRegister::Any)
+        &&& (match out.register {
+                Some(x) => c == x && t.len() == q + 2 && (cmp_op_spec(cmp_chain_op(ast, op0, rs, links)) matches Ok(o) && t[q + 1].is_op(o, seq![x, t[cmp_prev(n, links)].reg(), t[q].reg()])),
+                None => t.len() == q + 1,
+            })
+    }
 
     // `self.error(ErrorKind::..)` (rule R5: the error value is not part of any property here)
     #[verifier::external_body]
@@ -656,6 +713,90 @@ proof {
                 Some(e) => t.len() == m + 1 && t[m].is_node(e, fixed_or_none_spec(out.register)),
                 None => match out.register { Some(x) => t.len() == m + 1 && t[m].is_op(Op::SetNull, seq![x]), None => t.len() == m },
             } }),                                                                                                                         // @else_block_or_null_last
+        r matches Ok(out) ==> final(self).g@.regs == old(self).g@.regs + (if out.is_temporary { 1int } else { 0 }),                       // @temporaries_released
+        r is Ok ==> Self::frame_post(old(self), final(self), old(self).len()),                                                           // @earlier_code_and_enclosing_loops_untouched
+        r matches Ok(out) ==> (ctx.result_register matches ResultRegister::Fixed(x) ==> out.register == Some(x) && !out.is_temporary),
+        r matches Ok(out) ==> (ctx.result_register is None ==> out.register is None),                                                     // @result_request_is_honoured
+"""),
+        # ---- C01: chained comparisons
+        Fn(F, "impl Compiler :: fn compile_comparison_op", props=P01, attrs=("verifier::rlimit(80)", "verifier::spinoff_prover", "verifier::exec_allows_no_decreases_clause"),
+           subst=[MAP_OR_ELSE, ('"comparison".into()', 'err_str("comparison")', 1),
+                  # the closure's parameter type, result type and contract (nothing else is added to it)
+                  ("let get_comparision_op = |ast_op| {", "let get_comparision_op = |ast_op: AstBinaryOp| -> (r: core::result::Result<Op, ErrorKind>) ensures (r is Ok) == (cmp_op_spec(ast_op) is Ok), r matches Ok(o) ==> cmp_op_spec(ast_op) == Ok::<Op, ErrorKind>(o) {", 1),
+                  # `f(x).map_err(|e| self.make_error(e))?` written out (std Result::map_err, then `?`)
+                  (r"get_comparision_op\(ast_op\)\.map_err\(\|e\| self\.make_error\(e\)\)\?", "(match get_comparision_op(ast_op) { Ok(v__) => v__, Err(e__) => { return Err(self.make_error(e__)); } })", 2, "re"),
+                  ("let mut jump_offsets = Vec::new();", "let mut jump_offsets: Vec<usize> = Vec::new();", 1),
+                  ("for jump_offset in jump_offsets.iter() {", "for jump_offset in it2: jump_offsets.iter() {", 1)],
+           # ghost bookkeeping and hints only: the chain unrolled (rs), the operand and operator of each link
+           before=[("let mut rhs = rhs;", """let ghost n = old(self).g@.trace.len() as int; let ghost rhs0 = rhs; let ghost op0 = ast_op; let ghost c = comparison_register;
+let ghost mut rs: Seq<AstIndex> = seq![rhs0]; let ghost mut operands: Seq<AstIndex> = Seq::empty(); let ghost mut ops: Seq<AstBinaryOp> = seq![op0];"""),
+                   ("let rhs_lhs_register = self", "let ghost t0 = self.g@.trace; let ghost l = rs.len() - 1;"),
+                   (("lhs_register = rhs_lhs_register;", "rhs = *rhs_rhs;", "ast_op = *rhs_ast_op;"), """proof {
+    let t1 = self.g@.trace; let p = n + 1 + 4 * l;
+    assert(prefix(t0, t1));
+    assert(cmp_link(t1, p, cmp_prev(n, l), *rhs_lhs, ops[l], c)) by { reveal(cmp_link); }
+    assert forall|i: int| 0 <= i < l implies cmp_link(t1, n + 1 + 4 * i, cmp_prev(n, i), #[trigger] operands[i], ops[i], c) by {
+        lemma_cmp_link_stable(t0, t1, n + 1 + 4 * i, cmp_prev(n, i), operands[i], ops[i], c);
+    }
+    assert forall|i: int| 0 <= i < l + 1 implies t1[n + 1 + 4 * i + 3].pos() == #[trigger] jump_offsets@.push((self.len() - 2) as usize)[i] as int by { if i < l { assert(t1[n + 1 + 4 * i + 3] == t0[n + 1 + 4 * i + 3]); } else { reveal(cmp_link); } }
+    rs = rs.push(*rhs_rhs); operands = operands.push(*rhs_lhs); ops = ops.push(*rhs_ast_op);
+}"""),
+                   ("let rhs_register = self", "let ghost t_links = self.g@.trace;"),
+                   ("for jump_offset in it2: jump_offsets.iter() {", "let ghost t_end = self.g@.trace; let ghost len_end = self.len(); let ghost links = rs.len() - 1; proof { assert(prefix(t_links, t_end)); }"),
+                   ("self.truncate_register_stack(stack_count)?;", """proof {
+    let t = self.g@.trace;
+    assert forall|i: int| 0 <= i < links implies cmp_link(t, n + 1 + 4 * i, cmp_prev(n, i), bin_lhs(ctx.ast, #[trigger] rs[i]), cmp_chain_op(ctx.ast, op0, rs, i), c) by {
+        lemma_cmp_link_stable(t_links, t, n + 1 + 4 * i, cmp_prev(n, i), operands[i], ops[i], c);
+        assert(operands[i] == bin_lhs(ctx.ast, rs[i])); assert(ops[i] == cmp_chain_op(ctx.ast, op0, rs, i));
+    }
+    assert forall|i: int| 0 <= i < links implies self.g@.patched.contains_key(t[n + 1 + 4 * i + 3].pos()) && self.g@.patched[t[n + 1 + 4 * i + 3].pos()] == self.len() && #[trigger] rs[i] == rs[i] by {
+        assert(t[n + 1 + 4 * i + 3] == t_links[n + 1 + 4 * i + 3]);
+        assert(jump_offsets@[i] as int == t_links[n + 1 + 4 * i + 3].pos());
+    }
+    assert(ops[links] == cmp_chain_op(ctx.ast, op0, rs, links));
+}""", -1),
+                   ("Ok(result)", """proof {
+    assert(Self::frame_post(old(self), self, old(self).len()));
+    assert(cmp_chain(ctx.ast, rhs0, rs));
+    assert(Self::cmp_post(old(self), self, ctx.ast, op0, lhs, rs, c, result));
+}""", -1)],
+           loops={1: r"""
+            invariant
+                forall|x: AstBinaryOp| #[trigger] get_comparision_op.requires((x,)),
+                forall|x: AstBinaryOp, y: core::result::Result<Op, ErrorKind>| #[trigger] get_comparision_op.ensures((x,), y) ==> ((y is Ok) == (cmp_op_spec(x) is Ok)) && (y matches Ok(o) ==> cmp_op_spec(x) == Ok::<Op, ErrorKind>(o)),
+                self.g@.spans == old(self).g@.spans, self.g@.spans.len() > 0, self.settings == old(self).settings, self.g@.regs >= stack_count,
+                n == old(self).g@.trace.len(), prefix(old(self).g@.trace, self.g@.trace), self.len() >= old(self).len(),
+                Self::frame_post(old(self), self, old(self).len()),
+                // the chain so far
+                rs.len() >= 1, rs[0] == rhs0, rs.last() == rhs, ops.len() == rs.len(), operands.len() == rs.len() - 1, ops[0] == op0, ast_op == ops.last(), is_cmp(ast_op),
+                forall|i: int| 0 <= i < rs.len() - 1 ==> ctx.ast.at(#[trigger] rs[i]).node is BinaryOp && is_cmp(bin_op(ctx.ast, rs[i])) && rs[i + 1] == bin_rhs(ctx.ast, rs[i])
+                    && operands[i] == bin_lhs(ctx.ast, rs[i]) && ops[i + 1] == bin_op(ctx.ast, rs[i]),
+                // what was emitted for it
+                self.g@.trace.len() == n + 1 + 4 * (rs.len() - 1),
+                self.g@.trace[n].is_node(lhs, ResultRegister::Any),
+                lhs_register == self.g@.trace[cmp_prev(n, rs.len() - 1)].reg(),
+                forall|i: int| 0 <= i < rs.len() - 1 ==> cmp_link(self.g@.trace, n + 1 + 4 * i, cmp_prev(n, i), #[trigger] operands[i], ops[i], c),
+                jump_offsets@.len() == rs.len() - 1,
+                forall|i: int| 0 <= i < rs.len() - 1 ==> self.g@.trace[n + 1 + 4 * i + 3].pos() == (#[trigger] jump_offsets@[i]) as int,
+                forall|q: int| 0 <= q < jump_offsets@.len() ==> old(self).len() <= (#[trigger] jump_offsets@[q]) && jump_offsets@[q] + 2 <= self.len(),
+                c == comparison_register, result.register matches Some(x) ==> c == x,
+            ensures
+                // the chain ends at the first rhs that is not itself a comparison
+                !(ctx.ast.at(rhs).node is BinaryOp && is_cmp(bin_op(ctx.ast, rhs))),
+""", 2: r"""
+            invariant
+                self.g@.trace == t_end, self.settings == old(self).settings, self.g@.regs >= stack_count, self.len() == len_end, self.g@.spans == old(self).g@.spans,
+                Self::frame_post(old(self), self, old(self).len()),
+                forall|q: int| 0 <= q < jump_offsets@.len() ==> old(self).len() <= (#[trigger] jump_offsets@[q]) && jump_offsets@[q] + 2 <= self.len(),
+                forall|q: int| 0 <= q < it2.index@ ==> self.g@.patched.contains_key(#[trigger] jump_offsets@[q] as int) && self.g@.patched[jump_offsets@[q] as int] == self.len(),
+"""},
+           spec=r"""
+    requires old(self).g@.spans.len() > 0, is_cmp(ast_op),
+    ensures
+        r is Ok ==> prefix(old(self).g@.trace, final(self).g@.trace),
+        // C01: `a < b < c` is `(a < b) and (b < c)` with every operand evaluated once, left to right, and nothing
+        // after a false comparison evaluated
+        r matches Ok(out) ==> exists|rs: Seq<AstIndex>, c: u8| cmp_chain(ctx.ast, rhs, rs) && #[trigger] Self::cmp_post(old(self), final(self), ctx.ast, ast_op, lhs, rs, c, out),   // @operands_once_left_to_right_false_comparison_skips_the_rest
         r matches Ok(out) ==> final(self).g@.regs == old(self).g@.regs + (if out.is_temporary { 1int } else { 0 }),                       // @temporaries_released
         r is Ok ==> Self::frame_post(old(self), final(self), old(self).len()),                                                           // @earlier_code_and_enclosing_loops_untouched
         r matches Ok(out) ==> (ctx.result_register matches ResultRegister::Fixed(x) ==> out.register == Some(x) && !out.is_temporary),
